@@ -56,10 +56,10 @@ type renv struct {
 	sw      *p2p.Switch
 	r       p2p.Reactor
 	caps    map[byte]int
-	own     func() string            // fingerprint of the node's own state this reactor guards
-	inv     func() string            // invariant over the node's own state ("" = holds)
-	onPeer  func(p *hpeer)           // extra per-peer setup before AddPeer
-	after   func(p *hpeer) string    // extra per-message check ("" = fine)
+	own     func() string         // fingerprint of the node's own state this reactor guards
+	inv     func() string         // invariant over the node's own state ("" = holds)
+	onPeer  func(p *hpeer)        // extra per-peer setup before AddPeer
+	after   func(p *hpeer) string // extra per-message check ("" = fine)
 	cleanup []func()
 	before  map[string]int
 	peers   []*hpeer
